@@ -647,3 +647,19 @@ def iter_rev_any(ex, it):
     if isinstance(it, Adt) and it.name == 'ListIter':
         return Adt('ListIter', 0, [list(reversed(it.fields[0][it.fields[1]:])), 0])
     return Adt('Rev', 0, [it])
+
+
+@nat('Timer::schedule_with_delay')
+def timer_schedule_with_delay2(ex, r, delay, cb):
+    """timer::Timer::schedule_with_delay computes `now + delay`; chrono panics when the date overflows (year > 262142).  The model
+    panics for delays of 9e18 ms and more (certainly beyond the range); between the true limit (about 8.2e15 ms) and 9e18 ms it does
+    not panic, which is an under-approximation of the crash region, stated in the evidence of C12/C16."""
+    ms = delay.fields[0]
+    LIMIT = 9_000_000_000_000_000_000
+    if is_sym(ms):
+        over = ex.branch(z3.And(bv(ms, 64) >= LIMIT, bv(ms, 64) > 0))        # signed comparison on the i64 value
+    else:
+        over = to_signed(ms, 64) >= LIMIT
+    if over:
+        raise Panic('`DateTime + TimeDelta` overflowed (timer::Timer::schedule_with_delay)')
+    return timer_schedule_with_delay(ex, r, delay, cb)
